@@ -476,7 +476,13 @@ def r7_reader_structure(ctx):
                 continue
             seen.add(key)
             # an answer decided by something other than the pattern match and the number of legal candidates
-            foreign = sorted(a for a in atoms if not STRUCTURAL(a) and a not in ALLOWED)
+            BOARD = ("call:Bitboard::", "call:PlayerState::", "call:Move::", "field:occupancy", "field:white", "field:black", "field:turn", "field:en_passant_square_shift", "field:king_side_castle", "field:queen_side_castle")
+            TEXT = ("call:Captures::", "call:Regex::", "call:Match::", "call:str::", "call:String::", "call:Lazy", "call:char::")
+            other = sorted(a for a in atoms if not STRUCTURAL(a) and a not in ALLOWED and not a.startswith(TEXT))
+            foreign = [a for a in other if a.startswith(BOARD)]
+            if other and not foreign and key not in REVIEWED:
+                ctx.lost(rid, "a result of pgn_to_bb assigned under a test of %s (neither the text of the move nor, as far as this rule can tell, the board)" % other)
+                continue
             ok = key in REVIEWED or not foreign
             ctx.ob(rid, "result-site|%s" % key, ok,
                    "" if ok else "pgn_to_bb assigns its result under a test of %s, which none of its reviewed exits uses: an early answer that depends on the board (for example 'a capture needs a piece on the target square') rejects standard SAN such as an en-passant capture" % foreign,
